@@ -304,12 +304,32 @@ def item_generators_exhaustive(repo: Repo, rep, rule: str) -> int:
             cls = q.split(".")[0]
             kind = "pdv" if cls == "P_DATA_TF" else "uid" if "RelatedGeneral" in cls or "CommonExtended" in cls else "item"
             it = Interp(g)
+            # module-level struct objects and their bound methods (ITEM_HEADER = Struct(">BxH"); UNPACK_X = ITEM_HEADER.unpack_from)
+            for mm in (repo.mod("pdu"), repo.mod("pdu_items")):
+                for a_ in mm.tree.body:
+                    if isinstance(a_, ast.Assign) and len(a_.targets) == 1 and isinstance(a_.targets[0], ast.Name) and a_.targets[0].id not in it.globals:
+                        v_ = a_.value
+                        try:
+                            if isinstance(v_, ast.Call) and norm(v_.func) in ("Struct", "struct.Struct") and v_.args and isinstance(v_.args[0], ast.Constant):
+                                it.globals[a_.targets[0].id] = struct.Struct(v_.args[0].value)
+                            elif isinstance(v_, ast.Attribute) and isinstance(v_.value, ast.Name) and isinstance(it.globals.get(v_.value.id), struct.Struct) and v_.attr in ("unpack", "unpack_from", "pack", "size"):
+                                it.globals[a_.targets[0].id] = getattr(it.globals[v_.value.id], v_.attr)
+                        except struct.error:
+                            pass
+            # the generators of the other codec classes, callable as `Cls._generate_items(b)`
+            from .minipy import Obj as _Obj
+            for mm in (repo.mod("pdu"), repo.mod("pdu_items")):
+                for cn_, ci_ in mm.classes.items():
+                    gfn = ci_.methods.get("_generate_items")
+                    if gfn is not None and cn_ not in it.globals:
+                        it.globals[cn_] = _Obj("class", {"@_generate_items": (lambda s_, b_, _g=gfn: it.call_function(_g, {_g.args.args[-1].arg: b_}))})
             params = [a.arg for a in fn.args.args]
             bad = None
             pts = 0
             try:
-                for cnt in range(0, 4):
-                    for items in itertools.product(payloads if kind != "uid" else payloads[1:], repeat=cnt):
+                big = [(b"\x41" * 40000,)] if kind != "uid" else []  # a 2-byte length with its top bit set
+                for items in [it_ for cnt in range(0, 4) for it_ in itertools.product(payloads if kind != "uid" else payloads[1:], repeat=cnt)] + big:
+                    if True:
                         stream, want = build(kind, items)
                         it.steps = 0
                         pts += 1
@@ -320,6 +340,10 @@ def item_generators_exhaustive(repo: Repo, rep, rule: str) -> int:
                         if got != want and bad is None:
                             bad = (items, got, want)
             except Unsupported as exc:
+                if "does not terminate" in str(exc):
+                    rep.fail(rule, f"{short}.{q}", "the evaluation of the generator on a well-formed byte string does not end", "the item loop does not advance past an item (a zero-length one, say): the decoder spins for ever on bytes a peer can send", mod=m, node=fn)
+                    n += 1
+                    continue
                 rep.defer(f"{short}.{q}: the item generator could not be evaluated ({exc})")
                 continue
             # malformed input: 1-3 stray bytes after the last item, or the last item cut short, is not something to skip
